@@ -33,223 +33,6 @@ theorem lds_parse_getElem (db : TagDb) (rw : Bool) (tags : List Name) (i : Nat) 
   rw [List.getElem?_eq_getElem (by rw [lds_parse_length]; exact h), List.getElem?_eq_getElem h] at this
   simpa using this
 
-/-! ### `parseTagRequest`, restructured -/
-
-/-- the bit-number split of `_parse_tag_request`: (bit, attrs, tag without the bit number) -/
-def lds_bitSplit (tag base : Name) (attrs1 : List Name) : Option Int × List Name × Name :=
-  match attrs1.getLast? with
-  | some l =>
-      if PyStr.isDigit l then
-        let as := attrs1.dropLast
-        (some (PyStr.decVal l : Int), as, if as.isEmpty then base else base ++ [46] ++ joinDot as)
-      else (none, attrs1, tag)
-  | none => (none, attrs1, tag)
-
-def lds_scoped (base0 : Name) (attrs0 : List Name) : Option (Name × List Name) :=
-  if PyStr.startsWith (nm "Program:") base0 then
-    match attrs0 with
-    | a :: rest => some (base0 ++ [46] ++ a, rest)
-    | [] => none
-  else some (base0, attrs0)
-
-/-- a bit number addresses one bit of an integer -/
-def lds_bitBad (info : TagInfo) (bit : Option Int) : Bool :=
-  match bit with
-  | none => false
-  | some b => info.core.tagType != .atomic ||
-      (match intBits info.core.dataTypeName with | some w => decide ((w : Int) ≤ b) | none => true)
-
-/-- the part of `_parse_tag_request` after the bit-number split -/
-def lds_tail (db : TagDb) (write : Bool) (rid : Nat) (tag0 tag : Name) (elements : Int) (implicit : Bool)
-    (base : Name) (bit : Option Int) (attrs : List Name) (tag1 : Name) : Parsed :=
-  let fail (e : TagErr) : Parsed := { requestId := rid, requestTag := tag0, error := some e }
-  match getTagInfo db base attrs with
-  | .error e => fail e
-  | .ok none => fail (failedParse tag1)
-  | .ok (some info) =>
-    if lds_bitBad info bit then
-      fail (.text (nm "Invalid bit number for a " ++ info.core.dataTypeName ++ nm ": " ++ pyStrInt (bit.getD 0)))
-    else
-    if isDword info then
-      match getArrayIndex tag1 with
-      | none => fail (failedParse tag1)
-      | some (t, idx) =>
-          let plc := match idx with
-            | some i => if write then t ++ [91] ++ pyStrInt (i / 32) ++ [93] else t ++ nm "[0]"
-            | none => tag1
-          let total : Int := idx.getD 0 + elements
-          { requestId := rid, requestTag := tag0, userTag := tag, plcTag := plc, bit := idx,
-            elements := total / 32 + (if total % 32 ≠ 0 then 1 else 0), info := some info,
-            boolElements := if implicit || elements == 1 then none else some elements }
-    else
-      { requestId := rid, requestTag := tag0, userTag := tag, plcTag := tag1, bit := bit, elements := elements,
-        info := some info, boolElements := none }
-
-theorem lds_parse_unfold (db : TagDb) (write : Bool) (rid : Nat) (tag0 : Name) :
-    parseTagRequest db write rid tag0 =
-      match splitElements tag0 with
-      | .error e => { requestId := rid, requestTag := tag0, error := some e }
-      | .ok (tag, elements, implicit) =>
-        if !(0 ≤ elements ∧ elements ≤ 65535) then
-          { requestId := rid, requestTag := tag0, error := some (.text (nm "Element count out of range: " ++ pyStrInt elements)) }
-        else
-        match (PyStr.split 46 tag).find? (fun part => !indexPartOk part) with
-        | some part => { requestId := rid, requestTag := tag0, error := some (.text (nm "Invalid array index: " ++ part)) }
-        | none =>
-        match PyStr.split 46 tag with
-        | [] => { requestId := rid, requestTag := tag0, error := some (failedParse tag) }
-        | base0 :: attrs0 =>
-          match lds_scoped base0 attrs0 with
-          | none => { requestId := rid, requestTag := tag0, error := some (failedParse tag) }
-          | some (base, attrs1) =>
-              lds_tail db write rid tag0 tag elements implicit base (lds_bitSplit tag base attrs1).1
-                (lds_bitSplit tag base attrs1).2.1 (lds_bitSplit tag base attrs1).2.2 := by
-  rfl
-/-- a `Tag.error` of the request parser: a non-empty text -/
-def lds_TextErr (e : TagErr) : Prop := ∃ s, e = .text s ∧ s ≠ []
-
-theorem lds_getTagInfo_err (db : TagDb) (base : Name) (attrs : List Name) (e : TagErr)
-    (h : getTagInfo db base attrs = .error e) : lds_TextErr e := by
-  unfold getTagInfo at h
-  cases hd : db.get? (stripArray base) with
-  | none => simp only [hd] at h; cases h; exact ⟨_, rfl, by simp [nm]⟩
-  | some data =>
-    simp only [hd] at h
-    split at h
-    · cases h
-    · split at h
-      · cases h
-      · cases h
-      · cases h; exact ⟨_, rfl, by simp [nm]⟩
-      · cases h; exact ⟨_, rfl, by simp [nm]⟩
-
-theorem lds_failedParse_text (t : Name) : lds_TextErr (failedParse t) := ⟨_, rfl, by simp [nm]⟩
-
-theorem lds_intBits_dword : intBits (nm "DWORD") = none := by decide
-
-theorem lds_isDword_name (info : TagInfo) (h : isDword info = true) : info.core.dataTypeName = nm "DWORD" := by
-  unfold isDword at h
-  simp only [Bool.and_eq_true, beq_iff_eq] at h
-  exact h.2
-
-theorem lds_tail_cases (db : TagDb) (write : Bool) (rid : Nat) (tag0 tag : Name) (elements : Int) (implicit : Bool)
-    (base : Name) (bit : Option Int) (attrs : List Name) (tag1 : Name) :
-    (∃ e, lds_tail db write rid tag0 tag elements implicit base bit attrs tag1
-        = { requestId := rid, requestTag := tag0, error := some e } ∧ lds_TextErr e) ∨
-    (∃ info, getTagInfo db base attrs = .ok (some info) ∧
-      ((isDword info = false ∧ lds_tail db write rid tag0 tag elements implicit base bit attrs tag1
-          = { requestId := rid, requestTag := tag0, userTag := tag, plcTag := tag1, bit := bit, elements := elements,
-              info := some info, boolElements := none }) ∨
-       (isDword info = true ∧ bit = none ∧ ∃ t idx, getArrayIndex tag1 = some (t, idx) ∧
-          lds_tail db write rid tag0 tag elements implicit base bit attrs tag1
-          = { requestId := rid, requestTag := tag0, userTag := tag,
-              plcTag := (match idx with
-                | some i => if write then t ++ [91] ++ pyStrInt (i / 32) ++ [93] else t ++ nm "[0]"
-                | none => tag1),
-              bit := idx,
-              elements := (idx.getD 0 + elements) / 32 + (if (idx.getD 0 + elements) % 32 ≠ 0 then 1 else 0),
-              info := some info,
-              boolElements := if implicit || elements == 1 then none else some elements }))) := by
-  unfold lds_tail
-  cases hg : getTagInfo db base attrs with
-  | error e => exact .inl ⟨e, rfl, lds_getTagInfo_err _ _ _ _ hg⟩
-  | ok oi =>
-    cases oi with
-    | none => exact .inl ⟨_, rfl, lds_failedParse_text _⟩
-    | some info =>
-      dsimp only
-      by_cases hb : lds_bitBad info bit = true
-      · rw [if_pos hb]
-        exact .inl ⟨_, rfl, _, rfl, by simp [nm]⟩
-      · rw [if_neg hb]
-        by_cases hd : isDword info = true
-        · rw [if_pos hd]
-          have hbit : bit = none := by
-            cases bit with
-            | none => rfl
-            | some b =>
-              exfalso; apply hb
-              simp only [lds_bitBad, lds_isDword_name info hd, lds_intBits_dword, Bool.or_true]
-          cases ha : getArrayIndex tag1 with
-          | none => exact .inl ⟨_, rfl, lds_failedParse_text _⟩
-          | some x =>
-            obtain ⟨t, idx⟩ := x
-            exact .inr ⟨info, rfl, .inr ⟨hd, hbit, t, idx, rfl, rfl⟩⟩
-        · rw [if_neg hd]
-          exact .inr ⟨info, rfl, .inl ⟨by simpa using hd, rfl⟩⟩
-
-theorem lds_bitSplit_none (tag base : Name) (attrs1 : List Name)
-    (h : (lds_bitSplit tag base attrs1).1 = none) : (lds_bitSplit tag base attrs1).2.2 = tag := by
-  unfold lds_bitSplit at h ⊢
-  cases hg : attrs1.getLast? with
-  | none => rfl
-  | some l =>
-    simp only [hg] at h ⊢
-    by_cases hd : PyStr.isDigit l = true
-    · simp only [hd, if_true] at h; cases h
-    · simp only [hd]; rfl
-
-/-- the two shapes of a parsed request -/
-theorem lds_parse_cases (db : TagDb) (write : Bool) (rid : Nat) (tag0 : Name) :
-    (∃ e, parseTagRequest db write rid tag0 = { requestId := rid, requestTag := tag0, error := some e } ∧ lds_TextErr e) ∨
-    (∃ tag elements implicit info bit tag1,
-      splitElements tag0 = .ok (tag, elements, implicit) ∧ 0 ≤ elements ∧ elements ≤ 65535 ∧ (bit = none → tag1 = tag) ∧
-      ((isDword info = false ∧ parseTagRequest db write rid tag0
-          = { requestId := rid, requestTag := tag0, userTag := tag, plcTag := tag1, bit := bit, elements := elements,
-              info := some info, boolElements := none }) ∨
-       (isDword info = true ∧ ∃ t idx, getArrayIndex tag = some (t, idx) ∧
-          parseTagRequest db write rid tag0
-          = { requestId := rid, requestTag := tag0, userTag := tag,
-              plcTag := (match idx with
-                | some i => if write then t ++ [91] ++ pyStrInt (i / 32) ++ [93] else t ++ nm "[0]"
-                | none => tag),
-              bit := idx,
-              elements := (idx.getD 0 + elements) / 32 + (if (idx.getD 0 + elements) % 32 ≠ 0 then 1 else 0),
-              info := some info,
-              boolElements := if implicit || elements == 1 then none else some elements }))) := by
-  rw [lds_parse_unfold]
-  cases hs : splitElements tag0 with
-  | error e =>
-    refine .inl ⟨e, rfl, ?_⟩
-    unfold splitElements at hs
-    split at hs
-    · split at hs
-      · split at hs
-        · cases hs
-        · cases hs; exact lds_failedParse_text _
-      · cases hs; exact lds_failedParse_text _
-    · cases hs
-  | ok x =>
-    obtain ⟨tag, elements, implicit⟩ := x
-    dsimp only
-    by_cases hr : (0 ≤ elements ∧ elements ≤ 65535)
-    · rw [if_neg (by simp [hr])]
-      cases hf : (PyStr.split 46 tag).find? (fun part => !indexPartOk part) with
-      | some part => exact .inl ⟨_, rfl, _, rfl, by simp [nm]⟩
-      | none =>
-        dsimp only
-        cases hsp : PyStr.split 46 tag with
-        | nil => exact .inl ⟨_, rfl, lds_failedParse_text _⟩
-        | cons base0 attrs0 =>
-          dsimp only
-          cases hsc : lds_scoped base0 attrs0 with
-          | none => exact .inl ⟨_, rfl, lds_failedParse_text _⟩
-          | some ba =>
-            obtain ⟨base, attrs1⟩ := ba
-            dsimp only
-            have hbn := lds_bitSplit_none tag base attrs1
-            generalize lds_bitSplit tag base attrs1 = trip at hbn ⊢
-            obtain ⟨bit, attrs, tag1⟩ := trip
-            dsimp only at hbn ⊢
-            rcases lds_tail_cases db write rid tag0 tag elements implicit base bit attrs tag1 with
-              ⟨e, he, ht⟩ | ⟨info, _, ⟨hd, he⟩ | ⟨hd, hb, t, idx, ha, he⟩⟩
-            · exact .inl ⟨e, he, ht⟩
-            · exact .inr ⟨tag, elements, implicit, info, bit, tag1, rfl, hr.1, hr.2, hbn, .inl ⟨hd, he⟩⟩
-            · have := hbn hb; subst this
-              exact .inr ⟨tag1, elements, implicit, info, bit, tag1, rfl, hr.1, hr.2, hbn, .inr ⟨hd, t, idx, ha, he⟩⟩
-    · rw [if_pos (by simp [hr])]
-      exact .inl ⟨_, rfl, _, rfl, by simp [nm]⟩
-
 /-! ### the element-count suffix -/
 
 theorem lds_splitOn_ne_nil (sep : Nat) (s : List Nat) : splitOn sep s ≠ [] := by
@@ -358,6 +141,613 @@ theorem lds_splitElements_fix (t u : Name) (n : Int) (impl : Bool) (h : splitEle
     simp only [Bool.and_eq_true, List.contains_iff_mem] at hh
     exact hm hh.2
 
+/-! ### the index of a BOOL-array request -/
+
+theorem lds_splitOn_no_sep (sep : Nat) (s : List Nat) (h : sep ∉ s) : splitOn sep s = [s] := by
+  induction s with
+  | nil => simp [splitOn]
+  | cons c cs ih =>
+    have hc : ¬ c = sep := fun e => h (by simp [e])
+    have := ih (fun hm => h (by simp [hm]))
+    simp [splitOn, this, hc]
+
+theorem lds_splitOn_append_sep (sep : Nat) (a r : List Nat) :
+    splitOn sep (a ++ sep :: r) = splitOn sep a ++ splitOn sep r := by
+  induction a with
+  | nil =>
+    simp only [List.nil_append, splitOn]
+    cases hs : splitOn sep r with
+    | nil => exact absurd hs (lds_splitOn_ne_nil sep r)
+    | cons h t => simp
+  | cons c a ih =>
+    simp only [List.cons_append, splitOn]
+    rw [ih]
+    cases ha : splitOn sep a with
+    | nil => exact absurd ha (lds_splitOn_ne_nil sep a)
+    | cons h t =>
+      simp only [List.cons_append]
+      split <;> rfl
+
+theorem lds_last_occurrence (sep : Nat) (s : List Nat) (h : sep ∈ s) : ∃ a b, s = a ++ sep :: b ∧ sep ∉ b := by
+  induction s with
+  | nil => cases h
+  | cons c cs ih =>
+    by_cases hm : sep ∈ cs
+    · obtain ⟨a, b, rfl, hb⟩ := ih hm
+      exact ⟨c :: a, b, rfl, hb⟩
+    · rcases List.mem_cons.1 h with rfl | h'
+      · exact ⟨[], cs, rfl, hm⟩
+      · exact absurd h' hm
+
+/-- the part after the last separator -/
+theorem lds_last_part (sep : Nat) (s : List Nat) :
+    ∃ P L X, s = P ++ L ∧ sep ∉ L ∧ (P = [] ∨ P.getLast? = some sep) ∧ splitOn sep s = X ++ [L] ∧
+      (∀ x ∈ X, x ∈ splitOn sep s) ∧ ∀ L', sep ∉ L' → splitOn sep (P ++ L') = X ++ [L'] := by
+  by_cases h : sep ∈ s
+  · obtain ⟨a, b, rfl, hb⟩ := lds_last_occurrence sep s h
+    refine ⟨a ++ [sep], b, splitOn sep a, by simp, hb, .inr (by simp), ?_, ?_, ?_⟩
+    · rw [lds_splitOn_append_sep, lds_splitOn_no_sep sep b hb]
+    · intro x hx; rw [lds_splitOn_append_sep]; exact List.mem_append_left _ hx
+    · intro L' hL'
+      rw [List.append_assoc, List.singleton_append, lds_splitOn_append_sep, lds_splitOn_no_sep sep L' hL']
+  · exact ⟨[], s, [], rfl, h, .inl rfl, by simpa using lds_splitOn_no_sep sep s h, by simp,
+      fun L' hL' => by simpa using lds_splitOn_no_sep sep L' hL'⟩
+
+theorem lds_takeWhile_stop (p : Nat → Bool) (l r : List Nat) (c : Nat) (hl : ∀ x ∈ l, p x = true) (hc : p c = false) :
+    (l ++ c :: r).takeWhile p = l ∧ (l ++ c :: r).dropWhile p = c :: r := by
+  induction l with
+  | nil => simp [hc]
+  | cons x xs ih =>
+    have hx := hl x (by simp)
+    have := ih (fun y hy => hl y (by simp [hy]))
+    simp [hx, this]
+
+theorem lds_rsplit1 (sep : Nat) (a b : List Nat) (h : sep ∉ b) : PyStr.rsplit1 sep (a ++ sep :: b) = [a, b] := by
+  unfold PyStr.rsplit1 PyStr.find
+  have hrev : (a ++ sep :: b).reverse = b.reverse ++ sep :: a.reverse := by simp
+  have htw := (lds_takeWhile_stop (· != sep) b.reverse a.reverse sep
+    (by intro x hx; simp at hx ⊢; intro e; exact h (e ▸ hx)) (by simp)).1
+  rw [hrev, htw]
+  simp only [List.length_reverse, List.length_append, List.length_cons]
+  rw [if_pos (by omega)]
+  simp only
+  have e1 : a.length + (b.length + 1) - b.length - 1 = a.length := by omega
+  have e2 : a.length + (b.length + 1) - b.length = a.length + 1 := by omega
+  rw [e1, e2]
+  simp
+
+theorem lds_mem_splitOn (sep : Nat) (s : List Nat) (c : Nat) (h : c ∈ s) :
+    c = sep ∨ ∃ piece ∈ splitOn sep s, c ∈ piece := by
+  induction s with
+  | nil => cases h
+  | cons x xs ih =>
+    simp only [splitOn]
+    cases hs : splitOn sep xs with
+    | nil => exact absurd hs (lds_splitOn_ne_nil sep xs)
+    | cons hd tl =>
+      dsimp only
+      rcases List.mem_cons.1 h with rfl | h'
+      · by_cases hc : c = sep
+        · exact .inl hc
+        · rw [if_neg hc]; exact .inr ⟨c :: hd, by simp, by simp⟩
+      · rcases ih h' with e | ⟨piece, hp, hcp⟩
+        · exact .inl e
+        · rw [hs] at hp
+          refine .inr ?_
+          split
+          · exact ⟨piece, List.mem_cons_of_mem _ hp, hcp⟩
+          · rcases List.mem_cons.1 hp with rfl | hp'
+            · exact ⟨x :: piece, by simp, List.mem_cons_of_mem _ hcp⟩
+            · exact ⟨piece, by simp [hp'], hcp⟩
+
+theorem lds_mem_dropWhile_or (p : Nat → Bool) (s : List Nat) (c : Nat) (h : c ∈ s) : p c = true ∨ c ∈ s.dropWhile p := by
+  induction s with
+  | nil => cases h
+  | cons x xs ih =>
+    by_cases hx : p x = true
+    · rcases List.mem_cons.1 h with rfl | h'
+      · exact .inl hx
+      · rw [List.dropWhile_cons_of_pos hx]; exact ih h'
+    · rw [List.dropWhile_cons_of_neg hx]; exact .inr h
+
+theorem lds_mem_strip_or (s : List Nat) (c : Nat) (h : c ∈ s) : PyStr.isSpaceC c = true ∨ c ∈ PyStr.strip s := by
+  unfold PyStr.strip PyStr.rstrip PyStr.lstrip
+  rcases lds_mem_dropWhile_or PyStr.isSpaceC s c h with h1 | h1
+  · exact .inl h1
+  · rcases lds_mem_dropWhile_or PyStr.isSpaceC (s.dropWhile PyStr.isSpaceC).reverse c (by simpa using h1) with h2 | h2
+    · exact .inl h2
+    · exact .inr (by simpa using h2)
+
+theorem lds_mem_of_strip (s : List Nat) (c : Nat) (h : c ∈ PyStr.strip s) : c ∈ s := by
+  unfold PyStr.strip PyStr.rstrip PyStr.lstrip at h
+  have h1 : c ∈ (s.dropWhile PyStr.isSpaceC).reverse.dropWhile PyStr.isSpaceC := by simpa using h
+  have h2 := (List.dropWhile_sublist _).subset h1
+  have h3 : c ∈ s.dropWhile PyStr.isSpaceC := by simpa using h2
+  exact (List.dropWhile_sublist _).subset h3
+
+/-- the characters of an index list the parser accepts: digits, commas, white space -/
+theorem lds_index_chars (X : List Nat) (h : ∀ piece ∈ splitOn 44 X, PyStr.isDigit (PyStr.strip piece) = true) :
+    ∀ c ∈ X, c = 44 ∨ PyStr.isSpaceC c = true ∨ PyStr.isDigitC c = true := by
+  intro c hc
+  rcases lds_mem_splitOn 44 X c hc with e | ⟨piece, hp, hcp⟩
+  · exact .inl e
+  · rcases lds_mem_strip_or piece c hcp with h1 | h1
+    · exact .inr (.inl h1)
+    · have := h piece hp
+      simp only [PyStr.isDigit, Bool.and_eq_true, List.all_eq_true] at this
+      exact .inr (.inr (this.2 c h1))
+
+theorem lds_pyInt_nonneg (s : List Nat) (i : Int) (h : PyStr.pyInt s = some i) (hm : 45 ∉ s) : 0 ≤ i := by
+  unfold PyStr.pyInt at h
+  have hm' : 45 ∉ PyStr.strip s := fun hh => hm (lds_mem_of_strip s 45 hh)
+  generalize PyStr.strip s = t at h hm'
+  dsimp only at h
+  split at h
+  · split at h
+    · cases h
+    · simp only [Option.some.injEq] at h
+      subst h
+      split
+      · exact absurd (by simp) hm'
+      · simp
+      · simp
+  · cases h
+
+theorem lds_mem_takeWhile (p : Nat → Bool) (l : List Nat) (x : Nat) (h : x ∈ l.takeWhile p) : p x = true := by
+  induction l with
+  | nil => simp at h
+  | cons a l ih =>
+    simp only [List.takeWhile_cons] at h
+    split at h
+    · rcases List.mem_cons.1 h with rfl | h
+      · assumption
+      · exact ih h
+    · simp at h
+
+/-- a part the index validation accepts and that ends with `]` is `name[index]` -/
+theorem lds_indexPartOk_unpack (L : List Nat) (h : indexPartOk L = true) (hl : L.getLast? = some 93) :
+    ∃ name index, L = name ++ 91 :: index ++ [93] ∧ 91 ∉ name ∧ name ≠ [] ∧
+      ∀ piece ∈ splitOn 44 index, PyStr.isDigit (PyStr.strip piece) = true := by
+  have h93 : 93 ∈ L := List.mem_of_getLast? hl
+  unfold indexPartOk at h
+  rw [if_neg (by simp [h93])] at h
+  simp only [Bool.and_eq_true, Bool.not_eq_true', List.isEmpty_eq_false_iff, beq_iff_eq, List.all_eq_true] at h
+  obtain ⟨⟨hname, hlast⟩, hpieces⟩ := h
+  have hsplit : L = L.takeWhile (· != 91) ++ L.dropWhile (· != 91) := (List.takeWhile_append_dropWhile).symm
+  cases hd : L.dropWhile (· != 91) with
+  | nil => rw [hd] at hlast; simp at hlast
+  | cons r0 index0 =>
+    rw [hd] at hlast hpieces
+    simp only [List.drop_succ_cons, List.drop_zero] at hlast hpieces
+    have hr0 : r0 = 91 := by
+      have := List.head_dropWhile_not (· != 91) (l := L) (by rw [hd]; simp)
+      simp only [hd, List.head_cons] at this
+      simpa using this
+    subst hr0
+    have hidx := lds_getLast_split index0 93 hlast
+    refine ⟨L.takeWhile (· != 91), index0.take (index0.length - 1), ?_, ?_, hname, hpieces⟩
+    · rw [List.append_assoc, List.cons_append, ← hidx, ← hd]; exact hsplit
+    · intro hm
+      have := lds_mem_takeWhile (· != 91) L 91 hm
+      simp at this
+
+theorem lds_index_char_ne (c : Nat) (h : c = 44 ∨ PyStr.isSpaceC c = true ∨ PyStr.isDigitC c = true) :
+    c ≠ 91 ∧ c ≠ 45 ∧ c ≠ 46 ∧ c ≠ 93 := by
+  rcases h with rfl | h | h
+  · decide
+  · simp only [PyStr.isSpaceC, Bool.or_eq_true, beq_iff_eq, Bool.and_eq_true, decide_eq_true_eq] at h
+    omega
+  · simp only [PyStr.isDigitC, Bool.and_eq_true, decide_eq_true_eq] at h
+    omega
+
+/-- the shape of a tag whose array index `getArrayIndex` finds, after the index validation of the parser -/
+theorem lds_getArrayIndex_shape (tag t : Name) (i : Int)
+    (hparts : ∀ part ∈ PyStr.split 46 tag, indexPartOk part = true)
+    (h : getArrayIndex tag = some (t, some i)) :
+    ∃ P X name index,
+      tag = P ++ (name ++ 91 :: index ++ [93]) ∧ t = P ++ name ∧ 46 ∉ name ∧ 91 ∉ name ∧ name ≠ [] ∧
+      PyStr.pyInt index = some i ∧
+      (∀ c ∈ index, c = 44 ∨ PyStr.isSpaceC c = true ∨ PyStr.isDigitC c = true) ∧
+      PyStr.split 46 tag = X ++ [name ++ 91 :: index ++ [93]] ∧ (∀ x ∈ X, x ∈ PyStr.split 46 tag) ∧
+      ∀ L', 46 ∉ L' → PyStr.split 46 (P ++ L') = X ++ [L'] := by
+  unfold getArrayIndex at h
+  split at h
+  · next hc =>
+    simp only [Bool.and_eq_true, beq_iff_eq] at hc
+    obtain ⟨P, L, X, htag, hL, hP, hsplit, hX, hrepl⟩ := lds_last_part 46 tag
+    have hLne : L ≠ [] := by
+      intro hLe
+      subst hLe
+      rw [List.append_nil] at htag
+      subst htag
+      rcases hP with rfl | hP
+      · simp at hc
+      · rw [hc.1] at hP; cases hP
+    have hLlast : L.getLast? = some 93 := by
+      have := hc.1
+      rw [htag, List.getLast?_append] at this
+      cases hl : L.getLast? with
+      | none => exact absurd (List.getLast?_eq_none_iff.1 hl) hLne
+      | some x => rw [hl] at this; simpa using this
+    have hLok : indexPartOk L = true := hparts L (by unfold PyStr.split; rw [hsplit]; simp)
+    obtain ⟨name, index, rfl, hn91, hnne, hpieces⟩ := lds_indexPartOk_unpack L hLok hLlast
+    have hchars := lds_index_chars index hpieces
+    have h91 : 91 ∉ index ++ [93] := by
+      intro hm
+      rcases List.mem_append.1 hm with hm | hm
+      · exact (lds_index_char_ne 91 (hchars 91 hm)).1 rfl
+      · simp at hm
+    have hrs : PyStr.rsplit1 91 tag = [P ++ name, index ++ [93]] := by
+      rw [htag, ← lds_rsplit1 91 (P ++ name) (index ++ [93]) h91]
+      simp
+    rw [hrs] at h
+    dsimp only at h
+    have htake : (index ++ [93]).take ((index ++ [93]).length - 1) = index := by simp
+    rw [htake] at h
+    split at h
+    · next v hv =>
+      simp only [Option.some.injEq, Prod.mk.injEq] at h
+      obtain ⟨rfl, rfl⟩ := h
+      refine ⟨P, X, name, index, htag, rfl, ?_, hn91, hnne, hv, hchars, hsplit, hX, hrepl⟩
+      intro hm; exact hL (by simp [hm])
+    · cases h
+  · simp only [Option.some.injEq, Prod.mk.injEq] at h
+    cases h.2
+
+/-- the index of an accepted BOOL-array request is not negative -/
+theorem lds_getArrayIndex_nonneg (tag t : Name) (i : Int)
+    (hparts : ∀ part ∈ PyStr.split 46 tag, indexPartOk part = true)
+    (h : getArrayIndex tag = some (t, some i)) : 0 ≤ i := by
+  obtain ⟨P, X, name, index, _, _, _, _, _, hv, hchars, _⟩ := lds_getArrayIndex_shape tag t i hparts h
+  exact lds_pyInt_nonneg index i hv (fun hm => (lds_index_char_ne 45 (hchars 45 hm)).2.1 rfl)
+
+theorem lds_splitOn_mem_no_sep (sep : Nat) (s : List Nat) : ∀ x ∈ splitOn sep s, sep ∉ x := by
+  induction s with
+  | nil => intro x hx; simp [splitOn] at hx; subst hx; simp
+  | cons c cs ih =>
+    intro x hx
+    simp only [splitOn] at hx
+    cases hs : splitOn sep cs with
+    | nil => exact absurd hs (lds_splitOn_ne_nil sep cs)
+    | cons hd tl =>
+      rw [hs] at hx ih
+      dsimp only at hx
+      split at hx
+      · rcases List.mem_cons.1 hx with rfl | hx
+        · simp
+        · exact ih x hx
+      · next hc =>
+        rcases List.mem_cons.1 hx with rfl | hx
+        · intro hm
+          rcases List.mem_cons.1 hm with e | hm
+          · exact hc e.symm
+          · exact ih hd (by simp) hm
+        · exact ih x (by simp [hx])
+
+theorem lds_split_foldl (rest : List Name) (h : ∀ y ∈ rest, 46 ∉ y) :
+    ∀ x : Name, splitOn 46 (rest.foldl (fun acc y => acc ++ [46] ++ y) x) = splitOn 46 x ++ rest := by
+  induction rest with
+  | nil => intro x; simp
+  | cons y ys ih =>
+    intro x
+    rw [List.foldl_cons, ih (fun z hz => h z (by simp [hz]))]
+    have : x ++ [46] ++ y = x ++ 46 :: y := by simp
+    rw [this, lds_splitOn_append_sep, lds_splitOn_no_sep 46 y (h y (by simp))]
+    simp
+
+theorem lds_split_joinDot (xs : List Name) (hne : xs ≠ []) (h : ∀ y ∈ xs, 46 ∉ y) : splitOn 46 (joinDot xs) = xs := by
+  cases xs with
+  | nil => exact absurd rfl hne
+  | cons x rest =>
+    unfold joinDot
+    rw [lds_split_foldl rest (fun y hy => h y (by simp [hy])), lds_splitOn_no_sep 46 x (h x (by simp))]
+    rfl
+
+/-! ### `parseTagRequest`, restructured -/
+
+/-- the bit-number split of `_parse_tag_request`: (bit, attrs, tag without the bit number) -/
+def lds_bitSplit (tag base : Name) (attrs1 : List Name) : Option Int × List Name × Name :=
+  match attrs1.getLast? with
+  | some l =>
+      if PyStr.isDigit l then
+        let as := attrs1.dropLast
+        (some (PyStr.decVal l : Int), as, if as.isEmpty then base else base ++ [46] ++ joinDot as)
+      else (none, attrs1, tag)
+  | none => (none, attrs1, tag)
+
+def lds_scoped (base0 : Name) (attrs0 : List Name) : Option (Name × List Name) :=
+  if PyStr.startsWith (nm "Program:") base0 then
+    match attrs0 with
+    | a :: rest => some (base0 ++ [46] ++ a, rest)
+    | [] => none
+  else some (base0, attrs0)
+
+/-- a bit number addresses one bit of an integer -/
+def lds_bitBad (info : TagInfo) (bit : Option Int) : Bool :=
+  match bit with
+  | none => false
+  | some b => info.core.tagType != .atomic ||
+      (match intBits info.core.dataTypeName with | some w => decide ((w : Int) ≤ b) | none => true)
+
+/-- the part of `_parse_tag_request` after the bit-number split -/
+def lds_tail (db : TagDb) (write : Bool) (rid : Nat) (tag0 tag : Name) (elements : Int) (implicit : Bool)
+    (base : Name) (bit : Option Int) (attrs : List Name) (tag1 : Name) : Parsed :=
+  let fail (e : TagErr) : Parsed := { requestId := rid, requestTag := tag0, error := some e }
+  match getTagInfo db base attrs with
+  | .error e => fail e
+  | .ok none => fail (failedParse tag1)
+  | .ok (some info) =>
+    if lds_bitBad info bit then
+      fail (.text (nm "Invalid bit number for a " ++ info.core.dataTypeName ++ nm ": " ++ pyStrInt (bit.getD 0)))
+    else
+    if isDword info then
+      match getArrayIndex tag1 with
+      | none => fail (failedParse tag1)
+      | some (t, idx) =>
+          let plc := match idx with
+            | some i => if write then t ++ [91] ++ pyStrInt (i / 32) ++ [93] else t ++ nm "[0]"
+            | none => tag1
+          let total : Int := idx.getD 0 + elements
+          let words : Int := total / 32 + (if total % 32 ≠ 0 then 1 else 0)
+          if words > 65535 then fail (.text (nm "Array index out of range: " ++ pyStrInt (idx.getD 0))) else
+          { requestId := rid, requestTag := tag0, userTag := tag, plcTag := plc, bit := idx,
+            elements := words, info := some info,
+            boolElements := if implicit || elements == 1 then none else some elements }
+    else
+      { requestId := rid, requestTag := tag0, userTag := tag, plcTag := tag1, bit := bit, elements := elements,
+        info := some info, boolElements := none }
+
+theorem lds_parse_unfold (db : TagDb) (write : Bool) (rid : Nat) (tag0 : Name) :
+    parseTagRequest db write rid tag0 =
+      match splitElements tag0 with
+      | .error e => { requestId := rid, requestTag := tag0, error := some e }
+      | .ok (tag, elements, implicit) =>
+        if !(0 ≤ elements ∧ elements ≤ 65535) then
+          { requestId := rid, requestTag := tag0, error := some (.text (nm "Element count out of range: " ++ pyStrInt elements)) }
+        else
+        match (PyStr.split 46 tag).find? (fun part => !indexPartOk part) with
+        | some part => { requestId := rid, requestTag := tag0, error := some (.text (nm "Invalid array index: " ++ part)) }
+        | none =>
+        match PyStr.split 46 tag with
+        | [] => { requestId := rid, requestTag := tag0, error := some (failedParse tag) }
+        | base0 :: attrs0 =>
+          match lds_scoped base0 attrs0 with
+          | none => { requestId := rid, requestTag := tag0, error := some (failedParse tag) }
+          | some (base, attrs1) =>
+              lds_tail db write rid tag0 tag elements implicit base (lds_bitSplit tag base attrs1).1
+                (lds_bitSplit tag base attrs1).2.1 (lds_bitSplit tag base attrs1).2.2 := by
+  rfl
+/-- a `Tag.error` of the request parser: a non-empty text -/
+def lds_TextErr (e : TagErr) : Prop := ∃ s, e = .text s ∧ s ≠ []
+
+theorem lds_getTagInfo_err (db : TagDb) (base : Name) (attrs : List Name) (e : TagErr)
+    (h : getTagInfo db base attrs = .error e) : lds_TextErr e := by
+  unfold getTagInfo at h
+  cases hd : db.get? (stripArray base) with
+  | none => simp only [hd] at h; cases h; exact ⟨_, rfl, by simp [nm]⟩
+  | some data =>
+    simp only [hd] at h
+    split at h
+    · cases h
+    · split at h
+      · cases h
+      · cases h
+      · cases h; exact ⟨_, rfl, by simp [nm]⟩
+      · cases h; exact ⟨_, rfl, by simp [nm]⟩
+
+theorem lds_failedParse_text (t : Name) : lds_TextErr (failedParse t) := ⟨_, rfl, by simp [nm]⟩
+
+theorem lds_intBits_dword : intBits (nm "DWORD") = none := by decide
+
+theorem lds_isDword_name (info : TagInfo) (h : isDword info = true) : info.core.dataTypeName = nm "DWORD" := by
+  unfold isDword at h
+  simp only [Bool.and_eq_true, beq_iff_eq] at h
+  exact h.2
+
+theorem lds_tail_cases (db : TagDb) (write : Bool) (rid : Nat) (tag0 tag : Name) (elements : Int) (implicit : Bool)
+    (base : Name) (bit : Option Int) (attrs : List Name) (tag1 : Name) :
+    (∃ e, lds_tail db write rid tag0 tag elements implicit base bit attrs tag1
+        = { requestId := rid, requestTag := tag0, error := some e } ∧ lds_TextErr e) ∨
+    (∃ info, getTagInfo db base attrs = .ok (some info) ∧
+      ((isDword info = false ∧ lds_bitBad info bit = false ∧
+          lds_tail db write rid tag0 tag elements implicit base bit attrs tag1
+          = { requestId := rid, requestTag := tag0, userTag := tag, plcTag := tag1, bit := bit, elements := elements,
+              info := some info, boolElements := none }) ∨
+       (isDword info = true ∧ bit = none ∧ ∃ t idx, getArrayIndex tag1 = some (t, idx) ∧
+          (idx.getD 0 + elements) / 32 + (if (idx.getD 0 + elements) % 32 ≠ 0 then 1 else 0) ≤ 65535 ∧
+          lds_tail db write rid tag0 tag elements implicit base bit attrs tag1
+          = { requestId := rid, requestTag := tag0, userTag := tag,
+              plcTag := (match idx with
+                | some i => if write then t ++ [91] ++ pyStrInt (i / 32) ++ [93] else t ++ nm "[0]"
+                | none => tag1),
+              bit := idx,
+              elements := (idx.getD 0 + elements) / 32 + (if (idx.getD 0 + elements) % 32 ≠ 0 then 1 else 0),
+              info := some info,
+              boolElements := if implicit || elements == 1 then none else some elements }))) := by
+  unfold lds_tail
+  cases hg : getTagInfo db base attrs with
+  | error e => exact .inl ⟨e, rfl, lds_getTagInfo_err _ _ _ _ hg⟩
+  | ok oi =>
+    cases oi with
+    | none => exact .inl ⟨_, rfl, lds_failedParse_text _⟩
+    | some info =>
+      dsimp only
+      by_cases hb : lds_bitBad info bit = true
+      · rw [if_pos hb]
+        exact .inl ⟨_, rfl, _, rfl, by simp [nm]⟩
+      · rw [if_neg hb]
+        by_cases hd : isDword info = true
+        · rw [if_pos hd]
+          have hbit : bit = none := by
+            cases bit with
+            | none => rfl
+            | some b =>
+              exfalso; apply hb
+              simp only [lds_bitBad, lds_isDword_name info hd, lds_intBits_dword, Bool.or_true]
+          cases ha : getArrayIndex tag1 with
+          | none => exact .inl ⟨_, rfl, lds_failedParse_text _⟩
+          | some x =>
+            obtain ⟨t, idx⟩ := x
+            dsimp only
+            by_cases hw : (idx.getD 0 + elements) / 32 + (if (idx.getD 0 + elements) % 32 ≠ 0 then 1 else 0) > 65535
+            · rw [if_pos hw]
+              exact .inl ⟨_, rfl, _, rfl, by simp [nm]⟩
+            · rw [if_neg hw]
+              exact .inr ⟨info, rfl, .inr ⟨hd, hbit, t, idx, rfl, by omega, rfl⟩⟩
+        · rw [if_neg hd]
+          exact .inr ⟨info, rfl, .inl ⟨by simpa using hd, by simpa using hb, rfl⟩⟩
+
+theorem lds_bitSplit_none (tag base : Name) (attrs1 : List Name)
+    (h : (lds_bitSplit tag base attrs1).1 = none) : (lds_bitSplit tag base attrs1).2.2 = tag := by
+  unfold lds_bitSplit at h ⊢
+  cases hg : attrs1.getLast? with
+  | none => rfl
+  | some l =>
+    simp only [hg] at h ⊢
+    by_cases hd : PyStr.isDigit l = true
+    · simp only [hd, if_true] at h; cases h
+    · simp only [hd]; rfl
+
+theorem lds_bitSplit_nonneg (tag base : Name) (attrs1 : List Name) (b : Int)
+    (h : (lds_bitSplit tag base attrs1).1 = some b) : 0 ≤ b := by
+  unfold lds_bitSplit at h
+  cases hg : attrs1.getLast? with
+  | none => simp only [hg] at h; cases h
+  | some l =>
+    simp only [hg] at h
+    by_cases hd : PyStr.isDigit l = true
+    · simp only [hd, if_true, Option.some.injEq] at h; subst h; simp
+    · simp only [hd] at h; cases h
+
+/-- the tag without its bit number consists of parts of the tag -/
+theorem lds_bitSplit_parts (tag base0 : Name) (attrs0 : List Name) (base : Name) (attrs1 : List Name)
+    (hsp : PyStr.split 46 tag = base0 :: attrs0) (hsc : lds_scoped base0 attrs0 = some (base, attrs1)) :
+    ∀ part ∈ PyStr.split 46 (lds_bitSplit tag base attrs1).2.2, part ∈ PyStr.split 46 tag := by
+  have hfree : ∀ x ∈ base0 :: attrs0, 46 ∉ x := by
+    intro x hx; rw [← hsp] at hx; exact lds_splitOn_mem_no_sep 46 tag x hx
+  have hbase : (∀ part ∈ PyStr.split 46 base, part ∈ base0 :: attrs0) ∧ ∀ a ∈ attrs1, a ∈ base0 :: attrs0 := by
+    unfold lds_scoped at hsc
+    split at hsc
+    · cases attrs0 with
+      | nil => cases hsc
+      | cons a rest =>
+        simp only [Option.some.injEq, Prod.mk.injEq] at hsc
+        obtain ⟨rfl, rfl⟩ := hsc
+        constructor
+        · intro part hp
+          have : base0 ++ [46] ++ a = base0 ++ 46 :: a := by simp
+          unfold PyStr.split at hp
+          rw [this, lds_splitOn_append_sep, lds_splitOn_no_sep 46 base0 (hfree base0 (by simp)),
+            lds_splitOn_no_sep 46 a (hfree a (by simp))] at hp
+          simp only [List.cons_append, List.nil_append, List.mem_cons, List.not_mem_nil, or_false] at hp
+          rcases hp with rfl | rfl <;> simp
+        · intro x hx; simp [hx]
+    · simp only [Option.some.injEq, Prod.mk.injEq] at hsc
+      obtain ⟨rfl, rfl⟩ := hsc
+      constructor
+      · intro part hp
+        unfold PyStr.split at hp
+        rw [lds_splitOn_no_sep 46 base0 (hfree base0 (by simp))] at hp
+        simp only [List.mem_singleton] at hp; subst hp; simp
+      · intro x hx; simp [hx]
+  intro part hp
+  rw [hsp]
+  unfold lds_bitSplit at hp
+  cases hg : attrs1.getLast? with
+  | none => rw [hg] at hp; dsimp only at hp; rw [hsp] at hp; exact hp
+  | some l =>
+    rw [hg] at hp
+    dsimp only at hp
+    by_cases hd : PyStr.isDigit l = true
+    · rw [if_pos hd] at hp
+      dsimp only at hp
+      by_cases has : attrs1.dropLast.isEmpty = true
+      · rw [if_pos has] at hp
+        exact hbase.1 part hp
+      · rw [if_neg has] at hp
+        have hne : attrs1.dropLast ≠ [] := by simpa using has
+        have hsub : ∀ y ∈ attrs1.dropLast, y ∈ base0 :: attrs0 :=
+          fun y hy => hbase.2 y ((List.dropLast_sublist _).subset hy)
+        have : base ++ [46] ++ joinDot attrs1.dropLast = base ++ 46 :: joinDot attrs1.dropLast := by simp
+        unfold PyStr.split at hp
+        rw [this, lds_splitOn_append_sep, lds_split_joinDot _ hne (fun y hy => hfree y (hsub y hy))] at hp
+        rcases List.mem_append.1 hp with hp | hp
+        · exact hbase.1 part hp
+        · exact hsub part hp
+    · rw [if_neg hd] at hp
+      dsimp only at hp; rw [hsp] at hp; exact hp
+/-- the two shapes of a parsed request -/
+theorem lds_parse_cases (db : TagDb) (write : Bool) (rid : Nat) (tag0 : Name) :
+    (∃ e, parseTagRequest db write rid tag0 = { requestId := rid, requestTag := tag0, error := some e } ∧ lds_TextErr e) ∨
+    (∃ tag elements implicit info bit tag1,
+      splitElements tag0 = .ok (tag, elements, implicit) ∧ 0 ≤ elements ∧ elements ≤ 65535 ∧ (bit = none → tag1 = tag) ∧
+      (∀ part ∈ PyStr.split 46 tag, indexPartOk part = true) ∧ (∀ b, bit = some b → 0 ≤ b) ∧
+      (∀ part ∈ PyStr.split 46 tag1, part ∈ PyStr.split 46 tag) ∧
+      ((isDword info = false ∧ lds_bitBad info bit = false ∧ parseTagRequest db write rid tag0
+          = { requestId := rid, requestTag := tag0, userTag := tag, plcTag := tag1, bit := bit, elements := elements,
+              info := some info, boolElements := none }) ∨
+       (isDword info = true ∧ ∃ t idx, getArrayIndex tag = some (t, idx) ∧
+          (idx.getD 0 + elements) / 32 + (if (idx.getD 0 + elements) % 32 ≠ 0 then 1 else 0) ≤ 65535 ∧
+          parseTagRequest db write rid tag0
+          = { requestId := rid, requestTag := tag0, userTag := tag,
+              plcTag := (match idx with
+                | some i => if write then t ++ [91] ++ pyStrInt (i / 32) ++ [93] else t ++ nm "[0]"
+                | none => tag),
+              bit := idx,
+              elements := (idx.getD 0 + elements) / 32 + (if (idx.getD 0 + elements) % 32 ≠ 0 then 1 else 0),
+              info := some info,
+              boolElements := if implicit || elements == 1 then none else some elements }))) := by
+  rw [lds_parse_unfold]
+  cases hs : splitElements tag0 with
+  | error e =>
+    refine .inl ⟨e, rfl, ?_⟩
+    unfold splitElements at hs
+    split at hs
+    · split at hs
+      · split at hs
+        · cases hs
+        · cases hs; exact lds_failedParse_text _
+      · cases hs; exact lds_failedParse_text _
+    · cases hs
+  | ok x =>
+    obtain ⟨tag, elements, implicit⟩ := x
+    dsimp only
+    by_cases hr : (0 ≤ elements ∧ elements ≤ 65535)
+    · rw [if_neg (by simp [hr])]
+      cases hf : (PyStr.split 46 tag).find? (fun part => !indexPartOk part) with
+      | some part => exact .inl ⟨_, rfl, _, rfl, by simp [nm]⟩
+      | none =>
+        dsimp only
+        have hall : ∀ part ∈ PyStr.split 46 tag, indexPartOk part = true := by
+          intro part hpart
+          have := List.find?_eq_none.1 hf part hpart
+          simpa using this
+        cases hsp : PyStr.split 46 tag with
+        | nil => exact .inl ⟨_, rfl, lds_failedParse_text _⟩
+        | cons base0 attrs0 =>
+          dsimp only
+          cases hsc : lds_scoped base0 attrs0 with
+          | none => exact .inl ⟨_, rfl, lds_failedParse_text _⟩
+          | some ba =>
+            obtain ⟨base, attrs1⟩ := ba
+            dsimp only
+            have hbn := lds_bitSplit_none tag base attrs1
+            have hbp := lds_bitSplit_nonneg tag base attrs1
+            have hbq := lds_bitSplit_parts tag base0 attrs0 base attrs1 hsp hsc
+            generalize lds_bitSplit tag base attrs1 = trip at hbn hbp hbq ⊢
+            obtain ⟨bit, attrs, tag1⟩ := trip
+            dsimp only at hbn hbp hbq ⊢
+            rcases lds_tail_cases db write rid tag0 tag elements implicit base bit attrs tag1 with
+              ⟨e, he, ht⟩ | ⟨info, _, ⟨hd, hbb, he⟩ | ⟨hd, hb, t, idx, ha, hw, he⟩⟩
+            · exact .inl ⟨e, he, ht⟩
+            · exact .inr ⟨tag, elements, implicit, info, bit, tag1, rfl, hr.1, hr.2, hbn, hsp ▸ hall, hbp, hbq,
+                .inl ⟨hd, hbb, he⟩⟩
+            · have := hbn hb; subst this
+              exact .inr ⟨tag1, elements, implicit, info, bit, tag1, rfl, hr.1, hr.2, hbn, hsp ▸ hall, hbp, hbq,
+                .inr ⟨hd, t, idx, ha, hw, he⟩⟩
+    · rw [if_pos (by simp [hr])]
+      exact .inl ⟨_, rfl, _, rfl, by simp [nm]⟩
+
 /-- a request the parser accepted: `tag` = the request without its element count `n`, `info` = the tag definition -/
 structure lds_POk (tag0 : Name) (p : Parsed) (tag : Name) (n : Int) (impl : Bool) (info : TagInfo) : Prop where
   split : splitElements tag0 = .ok (tag, n, impl)
@@ -366,25 +756,29 @@ structure lds_POk (tag0 : Name) (p : Parsed) (tag : Name) (n : Int) (impl : Bool
   utag : p.userTag = tag
   hinfo : p.info = some info
   plcOfBit : p.bit = none → p.plcTag = tag
-  plain : isDword info = false → p.elements = n ∧ p.boolElements = none
+  plain : isDword info = false → p.elements = n ∧ p.boolElements = none ∧ lds_bitBad info p.bit = false ∧
+    ∀ b, p.bit = some b → 0 ≤ b
+  parts : ∀ part ∈ PyStr.split 46 tag, indexPartOk part = true
   dword : isDword info = true →
-    p.elements = (p.bit.getD 0 + n) / 32 + (if (p.bit.getD 0 + n) % 32 ≠ 0 then 1 else 0)
+    (∃ t, getArrayIndex tag = some (t, p.bit)) ∧
+    p.elements = (p.bit.getD 0 + n) / 32 + (if (p.bit.getD 0 + n) % 32 ≠ 0 then 1 else 0) ∧
+    p.elements ≤ 65535
 
 theorem lds_parse_rid (db : TagDb) (write : Bool) (rid : Nat) (tag0 : Name) :
     (parseTagRequest db write rid tag0).requestId = rid := by
-  rcases lds_parse_cases db write rid tag0 with ⟨e, he, _⟩ | ⟨_, _, _, _, _, _, _, _, _, _, ⟨_, he⟩ | ⟨_, _, _, _, he⟩⟩ <;>
+  rcases lds_parse_cases db write rid tag0 with ⟨e, he, _⟩ | ⟨_, _, _, _, _, _, _, _, _, _, _, _, _, ⟨_, _, he⟩ | ⟨_, _, _, _, _, he⟩⟩ <;>
     rw [he]
 
 theorem lds_parse_rtag (db : TagDb) (write : Bool) (rid : Nat) (tag0 : Name) :
     (parseTagRequest db write rid tag0).requestTag = tag0 := by
-  rcases lds_parse_cases db write rid tag0 with ⟨e, he, _⟩ | ⟨_, _, _, _, _, _, _, _, _, _, ⟨_, he⟩ | ⟨_, _, _, _, he⟩⟩ <;>
+  rcases lds_parse_cases db write rid tag0 with ⟨e, he, _⟩ | ⟨_, _, _, _, _, _, _, _, _, _, _, _, _, ⟨_, _, he⟩ | ⟨_, _, _, _, _, he⟩⟩ <;>
     rw [he]
 
 /-- a parse error is a non-empty text, and the parsed request is nothing but the request and the error -/
 theorem lds_parse_err (db : TagDb) (write : Bool) (rid : Nat) (tag0 : Name) (e : TagErr)
     (h : (parseTagRequest db write rid tag0).error = some e) :
     parseTagRequest db write rid tag0 = { requestId := rid, requestTag := tag0, error := some e } ∧ lds_TextErr e := by
-  rcases lds_parse_cases db write rid tag0 with ⟨e', he, ht⟩ | ⟨_, _, _, _, _, _, _, _, _, _, ⟨_, he⟩ | ⟨_, _, _, _, he⟩⟩
+  rcases lds_parse_cases db write rid tag0 with ⟨e', he, ht⟩ | ⟨_, _, _, _, _, _, _, _, _, _, _, _, _, ⟨_, _, he⟩ | ⟨_, _, _, _, _, he⟩⟩
   · rw [he] at h; cases h; exact ⟨he, ht⟩
   · rw [he] at h; cases h
   · rw [he] at h; cases h
@@ -393,32 +787,41 @@ theorem lds_parse_ok (db : TagDb) (write : Bool) (rid : Nat) (tag0 : Name)
     (h : (parseTagRequest db write rid tag0).error = none) :
     ∃ tag n impl info, lds_POk tag0 (parseTagRequest db write rid tag0) tag n impl info := by
   rcases lds_parse_cases db write rid tag0 with ⟨e', he, ht⟩ |
-    ⟨tag, n, impl, info, bit, tag1, hs, h0, h1, hb, ⟨hd, he⟩ | ⟨hd, t, idx, ha, he⟩⟩
+    ⟨tag, n, impl, info, bit, tag1, hs, h0, h1, hb, hparts, hbp, _, ⟨hd, hbb, he⟩ | ⟨hd, t, idx, ha, hw, he⟩⟩
   · rw [he] at h; cases h
   · refine ⟨tag, n, impl, info, ?_⟩
     rw [he]
-    exact ⟨hs, ⟨h0, h1⟩, rfl, rfl, rfl, hb, fun _ => ⟨rfl, rfl⟩, fun hd' => by (rw [hd] at hd'; cases hd')⟩
+    exact ⟨hs, ⟨h0, h1⟩, rfl, rfl, rfl, hb, fun _ => ⟨rfl, rfl, hbb, hbp⟩, hparts,
+      fun hd' => by (rw [hd] at hd'; cases hd')⟩
   · refine ⟨tag, n, impl, info, ?_⟩
     rw [he]
-    refine ⟨hs, ⟨h0, h1⟩, rfl, rfl, rfl, ?_, fun hd' => by (rw [hd] at hd'; cases hd'), fun _ => rfl⟩
+    refine ⟨hs, ⟨h0, h1⟩, rfl, rfl, rfl, ?_, fun hd' => by (rw [hd] at hd'; cases hd'), hparts,
+      fun _ => ⟨⟨t, ha⟩, rfl, hw⟩⟩
     intro hi; dsimp only at hi; subst hi; rfl
 
-/-- after the range check of the parser, the element count of an accepted request fits a UINT, except for a
-    BOOL-array request with an explicit index -/
+/-- the index of an accepted BOOL-array request is not negative -/
+theorem lds_POk_idx_nonneg (tag0 : Name) (p : Parsed) (tag : Name) (n : Int) (impl : Bool) (info : TagInfo)
+    (h : lds_POk tag0 p tag n impl info) (hd : isDword info = true) : 0 ≤ p.bit.getD 0 := by
+  obtain ⟨⟨t, ht⟩, _, _⟩ := h.dword hd
+  cases hb : p.bit with
+  | none => simp
+  | some i =>
+    rw [hb] at ht
+    simpa using lds_getArrayIndex_nonneg tag t i h.parts ht
+
+/-- the element count of an accepted request fits the UINT of the request: for a plain request by the range check
+    of the `{n}` suffix, for a BOOL-array request by the check of the word count (and the index is not negative) -/
 theorem lds_POk_elements_range (tag0 : Name) (p : Parsed) (tag : Name) (n : Int) (impl : Bool) (info : TagInfo)
-    (h : lds_POk tag0 p tag n impl info) (hd : isDword info = false ∨ p.bit = none) :
-    0 ≤ p.elements ∧ p.elements ≤ 65535 := by
+    (h : lds_POk tag0 p tag n impl info) : 0 ≤ p.elements ∧ p.elements ≤ 65535 := by
   cases hdw : isDword info with
   | false => rw [(h.plain hdw).1]; exact h.range
   | true =>
-    rcases hd with hd | hd
-    · rw [hdw] at hd; cases hd
-    · have := h.dword hdw
-      rw [hd] at this
-      simp only [Option.getD_none, Int.zero_add] at this
-      rw [this]
-      have := h.range
-      split <;> omega
+    obtain ⟨_, he, hle⟩ := h.dword hdw
+    refine ⟨?_, hle⟩
+    have h0 := lds_POk_idx_nonneg tag0 p tag n impl info h hdw
+    have := h.range
+    rw [he]
+    split <;> omega
 
 /-! ### what the request builders carry -/
 
@@ -1667,5 +2070,690 @@ theorem lds_requestPathOf_err (cfg : Cfg) (tag : Name) (info : TagInfo) (e : Exn
       · split at ht
         · cases ht
         · next he => cases ht; exact .inl (Cli.lc_encEpath_err _ _ _ _ _ he)
+
+/-! ### where an exception of `write` can come from -/
+
+theorem lds_POk_value (tag0 : Name) (p : Parsed) (tag : Name) (n : Int) (impl : Bool) (info : TagInfo) (v : PyVal)
+    (h : lds_POk tag0 p tag n impl info) : lds_POk tag0 { p with value := v } tag n impl info :=
+  ⟨h.split, h.range, h.err, h.utag, h.hinfo, h.plcOfBit, h.plain, h.parts, h.dword⟩
+
+theorem lds_typeEntry_dword : (typeEntryOfName (nm "DWORD")).isSome = true := by decide
+
+/-- the data type of a bit request has an entry in `DataTypes` (`ReadModifyWriteRequestPacket` finds its size) -/
+theorem lds_POk_bit_entry (tag0 : Name) (p : Parsed) (tag : Name) (n : Int) (impl : Bool) (info : TagInfo)
+    (h : lds_POk tag0 p tag n impl info) (b : Int) (hb : p.bit = some b) :
+    (typeEntryOfName info.core.dataTypeName).isSome = true := by
+  cases hd : isDword info with
+  | true => rw [lds_isDword_name info hd]; exact lds_typeEntry_dword
+  | false =>
+    have hbb := (h.plain hd).2.2.1
+    rw [hb] at hbb
+    simp only [lds_bitBad, Bool.or_eq_false_iff] at hbb
+    have h2 := hbb.2
+    cases hi : intBits info.core.dataTypeName with
+    | none => rw [hi] at h2; simp at h2
+    | some w =>
+      unfold intBits at hi
+      split at hi
+      · cases ht : typeEntryOfName info.core.dataTypeName with
+        | none => rw [ht] at hi; simp at hi
+        | some x => rfl
+      · cases hi
+
+theorem lds_encodeValue_fst' (p : Parsed) (info : TagInfo) :
+    (encodeValue p info).1 = p ∨
+    ((info.core.dataTypeName == nm "DWORD") = true ∧
+      (encodeValue p info).1 = { p with elements := p.elements - p.bit.getD 0 / 32 }) := by
+  unfold encodeValue
+  split
+  · exact .inl rfl
+  · dsimp only
+    split
+    · exact .inl rfl
+    · by_cases hd : (info.core.dataTypeName == nm "DWORD") = true
+      · rw [if_pos hd]
+        repeat' split
+        all_goals exact .inr ⟨hd, rfl⟩
+      · rw [if_neg hd]
+        repeat' split
+        all_goals exact .inl rfl
+
+/-- the element count `encode_value` leaves in an accepted request still fits the UINT of the request -/
+theorem lds_POk_encode_range (tag0 : Name) (p : Parsed) (tag : Name) (n : Int) (impl : Bool) (info : TagInfo)
+    (h : lds_POk tag0 p tag n impl info) :
+    0 ≤ (encodeValue p info).1.elements ∧ (encodeValue p info).1.elements ≤ 65535 := by
+  have hr := lds_POk_elements_range tag0 p tag n impl info h
+  rcases lds_encodeValue_fst' p info with he | ⟨hname, he⟩
+  · rw [he]; exact hr
+  · rw [he]
+    dsimp only
+    cases hd : isDword info with
+    | true =>
+      obtain ⟨_, hel, hle⟩ := h.dword hd
+      have h0 := lds_POk_idx_nonneg tag0 p tag n impl info h hd
+      have hn := h.range
+      rw [hel] at hle ⊢
+      split <;> split at hle <;> omega
+    | false =>
+      have hbb := (h.plain hd).2.2.1
+      have hb : p.bit = none := by
+        cases hb : p.bit with
+        | none => rfl
+        | some b =>
+          exfalso
+          rw [hb] at hbb
+          simp only [lds_bitBad, Bool.or_eq_false_iff] at hbb
+          have hta := hbb.1
+          unfold isDword at hd
+          rw [hname, Bool.and_true] at hd
+          simp only [bne_eq_false_iff_eq] at hta
+          rw [hta] at hd
+          simp at hd
+      rw [hb]
+      simpa using hr
+
+/-- what can go wrong while the packet of one accepted write request `p` is built -/
+def lds_WBuildErr (cfg : Cfg) (p : Parsed) (info : TagInfo) (e : Exn) : Prop :=
+  requestPathOf cfg p.plcTag info = .error e ∨
+  (p.bit.isSome = true ∧ typeEntryOfName info.core.dataTypeName = none) ∨
+  elementsNat (encodeValue p info).1.elements = .error e
+
+theorem lds_mkWriteReq_err (cfg : Cfg) (d d1 : Cli.Drv) (p : Parsed) (info : TagInfo) (v : Bytes) (e : Exn)
+    (h : mkWriteReq cfg d p info v = (d1, .error e)) :
+    requestPathOf cfg p.plcTag info = .error e ∨ elementsNat p.elements = .error e := by
+  unfold mkWriteReq at h
+  dsimp only at h
+  split at h
+  · next he => cases h; exact .inl he
+  · cases h; rename_i he; exact .inr he
+  · cases h
+
+theorem lds_mkRmwReq_err (cfg : Cfg) (d d1 : Cli.Drv) (p : Parsed) (info : TagInfo) (rid : Int) (e : Exn)
+    (h : mkRmwReq cfg d p info rid = (d1, .error e)) :
+    requestPathOf cfg p.plcTag info = .error e ∨ typeEntryOfName info.core.dataTypeName = none := by
+  unfold mkRmwReq at h
+  dsimp only at h
+  split at h
+  · next he => cases h; exact .inl he
+  · split at h
+    · next ht => exact .inr ht
+    · cases h
+
+theorem lds_encode_plcTag (p : Parsed) (info : TagInfo) : (encodeValue p info).1.plcTag = p.plcTag := by
+  rcases lds_encodeValue_fst p info with h | h <;> rw [h]
+
+theorem lds_writeBuildLive_err (cfg : Cfg) (C : Nat) (rest : List Parsed) :
+    ∀ (d d' : Cli.Drv) (acc : WriteBuild) (e : Exn), writeBuildLive cfg C d acc rest = (d', .error e) →
+      ∃ p ∈ rest, p.error = none ∧ ∃ info, p.info = some info ∧ lds_WBuildErr cfg p info e := by
+  induction rest with
+  | nil => intro d d' acc e h; simp only [writeBuildLive] at h; cases h
+  | cons p rest ih =>
+    intro d d' acc e h
+    have lift : (∃ q ∈ rest, q.error = none ∧ ∃ info, q.info = some info ∧ lds_WBuildErr cfg q info e) →
+        ∃ q ∈ p :: rest, q.error = none ∧ ∃ info, q.info = some info ∧ lds_WBuildErr cfg q info e :=
+      fun ⟨q, hq, h1⟩ => ⟨q, List.mem_cons_of_mem _ hq, h1⟩
+    rw [writeBuildLive] at h
+    split at h
+    · next info he hi =>
+      split at h
+      · next hbw =>
+        have hbit : p.bit.isSome = true := by
+          unfold Parsed.isBitWrite at hbw; simp only [Bool.and_eq_true] at hbw; exact hbw.1
+        split at h
+        · exact lift (ih _ _ _ _ h)
+        · rcases hm : mkRmwReq cfg d p info (-(1 + (acc.rmws.length : Int))) with ⟨d1, r⟩
+          rw [hm] at h
+          dsimp only at h
+          cases r with
+          | error e' =>
+            simp only [Prod.mk.injEq, Except.error.injEq] at h
+            obtain ⟨_, rfl⟩ := h
+            refine ⟨p, List.mem_cons_self, he, info, hi, ?_⟩
+            rcases lds_mkRmwReq_err cfg d d1 p info _ e' hm with h1 | h1
+            · exact .inl h1
+            · exact .inr (.inl ⟨hbit, h1⟩)
+          | ok r => exact lift (ih _ _ _ _ h)
+      · rcases hev : encodeValue p info with ⟨p1, enc⟩
+        have hp1 : p1 = (encodeValue p info).1 := by rw [hev]
+        rw [hev] at h
+        dsimp only at h
+        cases enc with
+        | none => exact lift (ih _ _ _ _ h)
+        | some value =>
+          dsimp only at h
+          rcases hm : mkWriteReq cfg d p1 info value with ⟨d1, r⟩
+          rw [hm] at h
+          dsimp only at h
+          cases r with
+          | error e' =>
+            simp only [Prod.mk.injEq, Except.error.injEq] at h
+            obtain ⟨_, rfl⟩ := h
+            refine ⟨p, List.mem_cons_self, he, info, hi, ?_⟩
+            rcases lds_mkWriteReq_err cfg d d1 p1 info value e' hm with h1 | h1
+            · exact .inl (by rw [hp1, lds_encode_plcTag] at h1; exact h1)
+            · exact .inr (.inr (by rw [hp1] at h1; exact h1))
+          | ok req => exact lift (ih _ _ _ _ h)
+    · exact lift (ih _ _ _ _ h)
+
+theorem lds_writeBuildSingles_err (cfg : Cfg) (C : Nat) (rest : List Parsed) :
+    ∀ (d d' : Cli.Drv) (acc : List Parsed) (e : Exn), writeBuildSingles cfg C d acc rest = (d', .error e) →
+      ∃ p ∈ rest, p.error = none ∧ ∃ info, p.info = some info ∧ lds_WBuildErr cfg p info e := by
+  induction rest with
+  | nil => intro d d' acc e h; simp only [writeBuildSingles] at h; cases h
+  | cons p rest ih =>
+    intro d d' acc e h
+    have lift : (∃ q ∈ rest, q.error = none ∧ ∃ info, q.info = some info ∧ lds_WBuildErr cfg q info e) →
+        ∃ q ∈ p :: rest, q.error = none ∧ ∃ info, q.info = some info ∧ lds_WBuildErr cfg q info e :=
+      fun ⟨q, hq, h1⟩ => ⟨q, List.mem_cons_of_mem _ hq, h1⟩
+    rw [writeBuildSingles] at h
+    split at h
+    · next info he hi =>
+      split at h
+      · next hbw =>
+        have hbit : p.bit.isSome = true := by
+          unfold Parsed.isBitWrite at hbw; simp only [Bool.and_eq_true] at hbw; exact hbw.1
+        rcases hm : mkRmwReq cfg d p info (-(1 + (p.requestId : Int))) with ⟨d1, r⟩
+        rw [hm] at h
+        dsimp only at h
+        cases r with
+        | error e' =>
+          simp only [Prod.mk.injEq, Except.error.injEq] at h
+          obtain ⟨_, rfl⟩ := h
+          refine ⟨p, List.mem_cons_self, he, info, hi, ?_⟩
+          rcases lds_mkRmwReq_err cfg d d1 p info _ e' hm with h1 | h1
+          · exact .inl h1
+          · exact .inr (.inl ⟨hbit, h1⟩)
+        | ok r =>
+          dsimp only at h
+          rcases hrec : writeBuildSingles cfg C d1 acc rest with ⟨d2, more⟩
+          rw [hrec] at h
+          dsimp only at h
+          cases more with
+          | ok x => cases h
+          | error e' =>
+            simp only [Except.map, Prod.mk.injEq, Except.error.injEq] at h
+            obtain ⟨_, rfl⟩ := h
+            exact lift (ih _ _ _ _ hrec)
+      · rcases hev : encodeValue p info with ⟨p1, enc⟩
+        have hp1 : p1 = (encodeValue p info).1 := by rw [hev]
+        rw [hev] at h
+        dsimp only at h
+        cases enc with
+        | none => exact lift (ih _ _ _ _ h)
+        | some value =>
+          dsimp only at h
+          rcases hm : mkWriteReq cfg d p1 info value with ⟨d1, r⟩
+          rw [hm] at h
+          dsimp only at h
+          cases r with
+          | error e' =>
+            simp only [Prod.mk.injEq, Except.error.injEq] at h
+            obtain ⟨_, rfl⟩ := h
+            refine ⟨p, List.mem_cons_self, he, info, hi, ?_⟩
+            rcases lds_mkWriteReq_err cfg d d1 p1 info value e' hm with h1 | h1
+            · exact .inl (by rw [hp1, lds_encode_plcTag] at h1; exact h1)
+            · exact .inr (.inr (by rw [hp1] at h1; exact h1))
+          | ok req =>
+            dsimp only at h
+            generalize (if decide (value.length + req.messageLen > C) = true then req.refresh d1 else (d1, req)) = fr at h
+            obtain ⟨d2, req2⟩ := fr
+            dsimp only at h
+            rcases hrec : writeBuildSingles cfg C d2 (replaceParsed acc p1) rest with ⟨d3, more⟩
+            rw [hrec] at h
+            dsimp only at h
+            cases more with
+            | ok x => cases h
+            | error e' =>
+              simp only [Except.map, Prod.mk.injEq, Except.error.injEq] at h
+              obtain ⟨_, rfl⟩ := h
+              exact lift (ih _ _ _ _ hrec)
+    · exact lift (ih _ _ _ _ h)
+
+/-- `_write_build_requests` raises only from building the packet of an accepted request -/
+theorem lds_writeBuild_err (cfg : Cfg) (d d' : Cli.Drv) (ps : List Parsed) (e : Exn)
+    (h : writeBuildRequests cfg d ps = (d', .error e)) :
+    ∃ p ∈ ps, p.error = none ∧ ∃ info, p.info = some info ∧ lds_WBuildErr cfg p info e := by
+  unfold writeBuildRequests at h
+  dsimp only at h
+  split at h
+  · rcases hl : writeBuildLive cfg d.connectionSize d { parsed := ps } ps with ⟨d1, b⟩
+    rw [hl] at h
+    dsimp only at h
+    cases b with
+    | error e' =>
+      simp only [Prod.mk.injEq, Except.error.injEq] at h
+      obtain ⟨_, rfl⟩ := h
+      exact lds_writeBuildLive_err cfg _ ps _ _ _ _ hl
+    | ok b => cases h
+  · exact lds_writeBuildSingles_err cfg _ ps _ _ _ _ h
+
+/-- the foreign exceptions of `_send_write_fragmented` for a request `r` sent over a connection of size `C`:
+    an empty value or a segment size ≤ 0 leave `responses` empty (`responses[-1]`) or make `range` fail -/
+def lds_FragSizeErr (C : Nat) (r : WriteReq) (e : Exn) : Prop :=
+  (r.value = [] ∧ e = .foreign "IndexError") ∨
+  (C = 2 + 1 + r.path.length + r.typeBytes.length + 2 + 4 ∧ e = .foreign "ValueError") ∨
+  (C < 2 + 1 + r.path.length + r.typeBytes.length + 2 + 4 ∧ e = .foreign "IndexError")
+
+/-- an exception raised while the packets of a `write` are sent -/
+def lds_WSendErr {σ} (hook : ObjHook σ) (reqs : List Request) (e : Exn) : Prop :=
+  lds_SendErr hook e ∨
+  (∃ r, Request.rmw r ∈ reqs ∧ rmwMessage r = .error e) ∨
+  (∃ r C, Request.writeFrag r ∈ reqs ∧ lds_FragSizeErr C r e)
+
+theorem lds_writeTag_err (tag : Name) (value : PyVal) (dtn : Name) (r : Resp) (e : Exn)
+    (h : writeTag tag value dtn r = .error e) : r.error = .error e := by
+  unfold writeTag at h
+  split at h
+  · next he => cases h; exact he
+  · cases h
+
+theorem lds_multiWrite_err (l : List (WriteReq × Option Bytes)) :
+    ∀ (rs : Results) (e : Exn), multiWriteResults rs l = .error e → ∃ r : Resp, r.error = .error e := by
+  induction l with
+  | nil => intro rs e h; simp only [multiWriteResults] at h; cases h
+  | cons x rest ih =>
+    intro rs e h
+    obtain ⟨req, raw⟩ := x
+    rw [multiWriteResults] at h
+    split at h
+    · exact ih _ _ h
+    · split at h
+      · next he => cases h; exact ⟨_, he⟩
+      · exact ih _ _ h
+
+theorem lds_writeFragSend_err {σ} (hook : ObjHook σ) (req : WriteReq) (segs : List (Nat × Bytes)) :
+    ∀ (w : Cli.World σ) (allOk : Bool) (last : Option Resp) (e : Exn),
+      (writeFragSend hook req w segs allOk last).2 = .error e → lds_SendErr hook e := by
+  induction segs with
+  | nil => intro w allOk last e h; simp only [writeFragSend] at h; cases h
+  | cons x rest ih =>
+    intro w allOk last e h
+    obtain ⟨off, seg⟩ := x
+    rw [writeFragSend] at h
+    dsimp only at h
+    split at h
+    · next w1 e' hs =>
+      simp only [Except.error.injEq] at h
+      subst h
+      exact .inl ⟨_, _, _, by unfold sendUnit at hs; rw [hs]⟩
+    · exact ih _ _ _ _ h
+
+theorem lds_sendWriteFragmented_err {σ} (hook : ObjHook σ) (w : Cli.World σ) (req : WriteReq) (e : Exn)
+    (h : (sendWriteFragmented hook w req).2 = .error e) :
+    lds_SendErr hook e ∨ lds_FragSizeErr w.drv.connectionSize req e := by
+  unfold sendWriteFragmented at h
+  dsimp only at h
+  split at h
+  · next hv => cases h; exact .inr (.inl ⟨by simpa using hv, rfl⟩)
+  · split at h
+    · next hc => cases h; exact .inr (.inr (.inl ⟨hc, rfl⟩))
+    · split at h
+      · next hc => cases h; exact .inr (.inr (.inr ⟨hc, rfl⟩))
+      · split at h
+        · next w1 e' hs =>
+          simp only [Except.error.injEq] at h
+          subst h
+          exact .inl (lds_writeFragSend_err hook req _ _ _ _ _ (by rw [hs]))
+        · split at h <;> cases h
+
+/-- an exception of one iteration of `_send_requests` -/
+theorem lds_sendRequest_err {σ} (hook : ObjHook σ) (w w' : Cli.World σ) (rs : Results) (q : Request) (e : Exn)
+    (h : sendRequest hook w rs q = (w', .error e)) : lds_WSendErr hook [q] e := by
+  by_cases hk : q.lds_isReadKind = true
+  · exact .inl (lds_sendRequest_read_err hook w w' rs q e hk h)
+  have tr : ∀ (seq : Nat) (msg : Bytes) (e' : Exn), (sendUnit hook w seq msg).2 = .error e' → lds_SendErr hook e' :=
+    fun seq msg e' hs => .inl ⟨w, seq, msg, hs⟩
+  have tagErr : ∀ (tag : Name) (v : PyVal) (dtn : Name) (r : Resp) (k : Int),
+      ((writeTag tag v dtn r).map fun t => rs.set k t) = .error e → lds_SendErr hook e := by
+    intro tag v dtn r k hh
+    cases hr : writeTag tag v dtn r with
+    | ok t => rw [hr] at hh; cases hh
+    | error e' =>
+      rw [hr] at hh
+      simp only [Except.map, Except.error.injEq] at hh
+      subst hh
+      exact .inr (.inr ⟨r, lds_writeTag_err _ _ _ _ _ hr⟩)
+  cases q with
+  | read _ => exact absurd rfl hk
+  | readFrag _ => exact absurd rfl hk
+  | multiRead _ _ => exact absurd rfl hk
+  | write req =>
+    simp only [sendRequest] at h
+    split at h
+    · next hs => simp only [Prod.mk.injEq, Except.error.injEq] at h; rw [← h.2]; exact .inl (tr _ _ _ hs)
+    · simp only [Prod.mk.injEq] at h; exact .inl (tagErr _ _ _ _ _ h.2)
+  | writeFrag req =>
+    simp only [sendRequest] at h
+    split at h
+    · next hs =>
+      simp only [Prod.mk.injEq, Except.error.injEq] at h
+      rw [← h.2]
+      rcases lds_sendWriteFragmented_err hook w req _ hs with h1 | h1
+      · exact .inl h1
+      · exact .inr (.inr ⟨req, _, List.mem_singleton.2 rfl, h1⟩)
+    · simp only [Prod.mk.injEq] at h; exact .inl (tagErr _ _ _ _ _ h.2)
+  | rmw req =>
+    simp only [sendRequest] at h
+    split at h
+    · next hm =>
+      simp only [Prod.mk.injEq, Except.error.injEq] at h
+      rw [← h.2]
+      exact .inr (.inl ⟨req, List.mem_singleton.2 rfl, hm⟩)
+    · split at h
+      · next hs => simp only [Prod.mk.injEq, Except.error.injEq] at h; rw [← h.2]; exact .inl (tr _ _ _ hs)
+      · simp only [Prod.mk.injEq] at h; exact .inl (tagErr _ _ _ _ _ h.2)
+  | multiWrite seq reqs =>
+    simp only [sendRequest] at h
+    split at h
+    · next hs => simp only [Prod.mk.injEq, Except.error.injEq] at h; rw [← h.2]; exact .inl (tr _ _ _ hs)
+    · simp only [Prod.mk.injEq] at h
+      exact .inl (.inr (.inr (lds_multiWrite_err _ _ _ h.2)))
+
+theorem lds_WSendErr_mono {σ} (hook : ObjHook σ) (l1 l2 : List Request) (e : Exn) (hsub : ∀ q ∈ l1, q ∈ l2)
+    (h : lds_WSendErr hook l1 e) : lds_WSendErr hook l2 e := by
+  rcases h with h | ⟨r, hr, h⟩ | ⟨r, C, hr, h⟩
+  · exact .inl h
+  · exact .inr (.inl ⟨r, hsub _ hr, h⟩)
+  · exact .inr (.inr ⟨r, C, hsub _ hr, h⟩)
+
+theorem lds_sendRequests_err {σ} (hook : ObjHook σ) (reqs : List Request) :
+    ∀ (w w' : Cli.World σ) (rs : Results) (e : Exn),
+      sendRequests hook w rs reqs = (w', .error e) → lds_WSendErr hook reqs e := by
+  induction reqs with
+  | nil => intro w w' rs e h; simp only [sendRequests] at h; cases h
+  | cons q rest ih =>
+    intro w w' rs e h
+    rw [sendRequests] at h
+    rcases hq : sendRequest hook w rs q with ⟨w1, r⟩
+    rw [hq] at h
+    dsimp only at h
+    cases r with
+    | error e' =>
+      simp only [Prod.mk.injEq, Except.error.injEq] at h
+      obtain ⟨_, rfl⟩ := h
+      exact lds_WSendErr_mono hook [q] _ _ (fun x hx => by rw [List.mem_singleton.1 hx]; exact List.mem_cons_self)
+        (lds_sendRequest_err hook w w1 rs q e' hq)
+    | ok rs1 =>
+      exact lds_WSendErr_mono hook rest _ _ (fun x hx => List.mem_cons_of_mem _ hx) (ih _ _ _ _ h)
+
+/-! ### index strings `tag_request_path` can convert -/
+
+/-- `int()` succeeds on every index of the part: `tag_request_path` raises no ValueError for it -/
+def lds_Fine (part : Name) : Prop := ∃ v, indexSegs (findTagIndex part).2 = .ok v
+
+theorem lds_digitsUnderscore_digits (cs : List Nat) :
+    ∀ b : Bool, (∀ c ∈ cs, PyStr.isDigitC c = true) → (cs ≠ [] ∨ b = true) → PyStr.digitsUnderscore cs b = some cs := by
+  induction cs with
+  | nil => intro b _ h; rcases h with h | h; exact absurd rfl h; simp [PyStr.digitsUnderscore, h]
+  | cons c cs ih =>
+    intro b hd _
+    have hc := hd c (by simp)
+    simp only [PyStr.digitsUnderscore, hc, if_true]
+    rw [ih true (fun x hx => hd x (by simp [hx])) (.inr rfl)]
+    rfl
+
+theorem lds_pyInt_digits (s : List Nat) (h : PyStr.isDigit (PyStr.strip s) = true) : ∃ v, PyStr.pyInt s = some v := by
+  unfold PyStr.pyInt
+  generalize PyStr.strip s = t at h
+  simp only [PyStr.isDigit, Bool.and_eq_true, Bool.not_eq_true', List.isEmpty_eq_false_iff, List.all_eq_true] at h
+  obtain ⟨hne, hall⟩ := h
+  cases t with
+  | nil => exact absurd rfl hne
+  | cons c cs =>
+    have hc := hall c (by simp)
+    have hc' : c ≠ 45 ∧ c ≠ 43 := by
+      simp only [PyStr.isDigitC, Bool.and_eq_true, decide_eq_true_eq] at hc; omega
+    have hdu := lds_digitsUnderscore_digits (c :: cs) false hall (.inl (by simp))
+    dsimp only
+    split
+    · next ds heq =>
+      split
+      · next hemp =>
+        exfalso
+        split at heq
+        · next heq2 => cases heq2; exact hc'.1 rfl
+        · next heq2 => cases heq2; exact hc'.2 rfl
+        · dsimp only at heq
+          rw [hdu] at heq; cases heq; simp at hemp
+      · exact ⟨_, rfl⟩
+    · next heq =>
+      exfalso
+      split at heq
+      · next heq2 => cases heq2; exact hc'.1 rfl
+      · next heq2 => cases heq2; exact hc'.2 rfl
+      · dsimp only at heq
+        rw [hdu] at heq; cases heq
+
+theorem lds_find_stop (c : Nat) (l r : List Nat) (h : c ∉ l) : PyStr.find c (l ++ c :: r) = some l.length := by
+  unfold PyStr.find
+  rw [(lds_takeWhile_stop (· != c) l r c (by intro x hx; simp; intro e; exact h (e ▸ hx)) (by simp)).1]
+  simp
+
+theorem lds_findTagIndex_shape (name idx : List Nat) (hn : 91 ∉ name) :
+    findTagIndex (name ++ 91 :: idx ++ [93]) = (name, PyStr.split 44 idx) := by
+  unfold findTagIndex
+  have e0 : name ++ 91 :: idx ++ [93] = name ++ 91 :: (idx ++ [93]) := by simp
+  rw [e0, lds_find_stop 91 name (idx ++ [93]) hn]
+  dsimp only
+  have e1 : (name ++ 91 :: (idx ++ [93])).take ((name ++ 91 :: (idx ++ [93])).length - 1) = name ++ 91 :: idx := by
+    have : name ++ 91 :: (idx ++ [93]) = (name ++ 91 :: idx) ++ [93] := by simp
+    rw [this, ← List.dropLast_eq_take, List.dropLast_concat]
+  rw [e1, lds_find_stop 91 name idx hn]
+  simp
+
+theorem lds_indexSegs_ok (xs : List Name) (h : ∀ x ∈ xs, ∃ v, PyStr.pyInt x = some v) : ∃ v, indexSegs xs = .ok v := by
+  induction xs with
+  | nil => exact ⟨[], rfl⟩
+  | cons x rest ih =>
+    obtain ⟨v, hv⟩ := h x (by simp)
+    obtain ⟨r, hr⟩ := ih (fun y hy => h y (by simp [hy]))
+    simp only [indexSegs, hv, hr]
+    exact ⟨_, rfl⟩
+
+theorem lds_fine_of_shape (name idx : List Nat) (hn : 91 ∉ name)
+    (hidx : ∀ piece ∈ splitOn 44 idx, PyStr.isDigit (PyStr.strip piece) = true) :
+    lds_Fine (name ++ 91 :: idx ++ [93]) := by
+  unfold lds_Fine
+  rw [lds_findTagIndex_shape name idx hn]
+  exact lds_indexSegs_ok _ (fun x hx => lds_pyInt_digits x (hidx x hx))
+
+/-- generalisation of `lds_indexPartOk_unpack`: any accepted part that mentions a bracket -/
+theorem lds_indexPartOk_unpack' (L : List Nat) (h : indexPartOk L = true)
+    (hbr : (L.contains 91 || L.contains 93) = true) :
+    ∃ name index, L = name ++ 91 :: index ++ [93] ∧ 91 ∉ name ∧ name ≠ [] ∧
+      ∀ piece ∈ splitOn 44 index, PyStr.isDigit (PyStr.strip piece) = true := by
+  unfold indexPartOk at h
+  rw [if_neg (by rw [hbr]; simp)] at h
+  simp only [Bool.and_eq_true, Bool.not_eq_true', List.isEmpty_eq_false_iff, beq_iff_eq, List.all_eq_true] at h
+  obtain ⟨⟨hname, hlast⟩, hpieces⟩ := h
+  have hsplit : L = L.takeWhile (· != 91) ++ L.dropWhile (· != 91) := (List.takeWhile_append_dropWhile).symm
+  cases hd : L.dropWhile (· != 91) with
+  | nil => rw [hd] at hlast; simp at hlast
+  | cons r0 index0 =>
+    rw [hd] at hlast hpieces
+    simp only [List.drop_succ_cons, List.drop_zero] at hlast hpieces
+    have hr0 : r0 = 91 := by
+      have := List.head_dropWhile_not (· != 91) (l := L) (by rw [hd]; simp)
+      simp only [hd, List.head_cons] at this
+      simpa using this
+    subst hr0
+    have hidx := lds_getLast_split index0 93 hlast
+    refine ⟨L.takeWhile (· != 91), index0.take (index0.length - 1), ?_, ?_, hname, hpieces⟩
+    · rw [List.append_assoc, List.cons_append, ← hidx, ← hd]; exact hsplit
+    · intro hm
+      have := lds_mem_takeWhile (· != 91) L 91 hm
+      simp at this
+
+theorem lds_takeWhile_all (p : Nat → Bool) (l : List Nat) (h : ∀ x ∈ l, p x = true) : l.takeWhile p = l := by
+  induction l with
+  | nil => rfl
+  | cons x xs ih =>
+    rw [List.takeWhile_cons_of_pos (h x (by simp)), ih (fun y hy => h y (by simp [hy]))]
+
+/-- a part the index validation of the parser accepts converts -/
+theorem lds_fine_of_ok (part : Name) (h : indexPartOk part = true) : lds_Fine part := by
+  by_cases hbr : (part.contains 91 || part.contains 93) = true
+  · obtain ⟨name, idx, rfl, hn, _, hp⟩ := lds_indexPartOk_unpack' part h hbr
+    exact lds_fine_of_shape name idx hn hp
+  · unfold lds_Fine findTagIndex PyStr.find
+    have h91 : 91 ∉ part := by
+      intro hm; apply hbr; simp [hm]
+    have : part.takeWhile (· != 91) = part := by
+      apply lds_takeWhile_all
+      intro x hx; simp; intro e; exact h91 (e ▸ hx)
+    rw [this]
+    simp only [Nat.lt_irrefl, if_false]
+    exact ⟨[], rfl⟩
+
+theorem lds_strip_digits (ds : List Nat) (h : ∀ c ∈ ds, PyStr.isDigitC c = true) : PyStr.strip ds = ds := by
+  have hns : ∀ c ∈ ds, PyStr.isSpaceC c = false := by
+    intro c hc
+    have := h c hc
+    simp only [PyStr.isDigitC, Bool.and_eq_true, decide_eq_true_eq] at this
+    simp only [PyStr.isSpaceC, Bool.or_eq_false_iff, beq_eq_false_iff_ne, Bool.and_eq_false_iff, decide_eq_false_iff_not]
+    omega
+  have hdw : ∀ l : List Nat, (∀ c ∈ l, PyStr.isSpaceC c = false) → l.dropWhile PyStr.isSpaceC = l := by
+    intro l hl
+    cases l with
+    | nil => rfl
+    | cons x xs => rw [List.dropWhile_cons_of_neg (by simp [hl x (by simp)])]
+  unfold PyStr.strip PyStr.rstrip PyStr.lstrip
+  rw [hdw ds hns, hdw ds.reverse (fun c hc => hns c (by simpa using hc))]
+  simp
+
+/-- `name[digits]` converts -/
+theorem lds_fine_digits (name ds : List Nat) (hn : 91 ∉ name) (hne : ds ≠ []) (hd : ∀ c ∈ ds, PyStr.isDigitC c = true) :
+    lds_Fine (name ++ 91 :: ds ++ [93]) := by
+  apply lds_fine_of_shape name ds hn
+  have h44 : 44 ∉ ds := by
+    intro hm
+    have := hd 44 hm
+    simp [PyStr.isDigitC] at this
+  rw [lds_splitOn_no_sep 44 ds h44]
+  intro piece hp
+  rw [List.mem_singleton.1 hp, lds_strip_digits ds hd]
+  simp only [PyStr.isDigit, Bool.and_eq_true, Bool.not_eq_true', List.isEmpty_eq_false_iff, List.all_eq_true]
+  exact ⟨hne, hd⟩
+
+theorem lds_attrSegs_ok (xs : List Name) (h : ∀ x ∈ xs, lds_Fine x) : ∃ v, attrSegs xs = .ok v := by
+  induction xs with
+  | nil => exact ⟨[], rfl⟩
+  | cons x rest ih =>
+    obtain ⟨v, hv⟩ := h x (by simp)
+    obtain ⟨r, hr⟩ := ih (fun y hy => h y (by simp [hy]))
+    simp only [attrSegs, hv, hr]
+    exact ⟨_, rfl⟩
+
+/-- when every part of the tag converts, `tag_request_path` raises a DataError at most -/
+theorem lds_requestPathOf_fine (cfg : Cfg) (tag : Name) (info : TagInfo) (e : Exn)
+    (hf : ∀ part ∈ PyStr.split 46 tag, lds_Fine part)
+    (h : requestPathOf cfg tag info = .error e) : e = .data := by
+  rcases lds_requestPathOf_err cfg tag info e h with h1 | h1
+  · exact h1
+  · exfalso
+    subst h1
+    unfold requestPathOf at h
+    cases ht : tagRequestPath tag info.core.instanceId cfg.useInstanceIds with
+    | ok v =>
+      rw [ht] at h
+      cases v with
+      | some b => cases h
+      | none => simp at h
+    | error e' =>
+      rw [ht] at h
+      simp only [Except.error.injEq] at h
+      subst h
+      unfold tagRequestPath at ht
+      cases hs : PyStr.split 46 tag with
+      | nil => rw [hs] at ht; cases ht
+      | cons base attrs =>
+        rw [hs] at ht hf
+        dsimp only at ht
+        obtain ⟨v1, hv1⟩ := hf base (by simp)
+        obtain ⟨v2, hv2⟩ := lds_attrSegs_ok attrs (fun x hx => hf x (by simp [hx]))
+        rw [hv1, hv2] at ht
+        dsimp only at ht
+        split at ht
+        · cases ht
+        · next he =>
+          cases ht
+          have := Cli.lc_encEpath_err _ _ _ _ _ he
+          cases this
+
+theorem lds_pyStrInt_digits (k : Int) (hk : 0 ≤ k) :
+    pyStrInt k ≠ [] ∧ ∀ c ∈ pyStrInt k, PyStr.isDigitC c = true := by
+  obtain ⟨m, rfl⟩ := Int.eq_ofNat_of_zero_le hk
+  have hs : toString ((m : Nat) : Int) = toString m := rfl
+  unfold pyStrInt
+  rw [hs]
+  have hl : (toString m).toList = Nat.toDigits 10 m := Nat.toList_repr
+  rw [hl]
+  constructor
+  · simp [Nat.toDigits_ne_nil]
+  · intro c hc
+    obtain ⟨ch, hch, rfl⟩ := List.mem_map.1 hc
+    have := Nat.isDigit_of_mem_toDigits (by decide) (by decide) hch
+    simp only [Char.isDigit, Bool.and_eq_true, decide_eq_true_eq] at this
+    simp only [PyStr.isDigitC, Bool.and_eq_true, decide_eq_true_eq]
+    have h1 : ch.val.toNat = ch.toNat := rfl
+    obtain ⟨t1, t2⟩ := this
+    have t1' : ('0' : Char).val ≤ ch.val := t1
+    rw [UInt32.le_iff_toNat_le] at t1' t2
+    have e0 : ('0' : Char).val.toNat = 48 := rfl
+    have e9 : ('9' : Char).val.toNat = 57 := rfl
+    rw [e0] at t1'; rw [e9] at t2
+    rw [← h1]; exact ⟨t1', t2⟩
+
+/-- every part of the tag an accepted request addresses has indexes `tag_request_path` can convert -/
+theorem lds_parse_plc_fine (db : TagDb) (write : Bool) (rid : Nat) (tag0 : Name)
+    (he : (parseTagRequest db write rid tag0).error = none) :
+    ∀ part ∈ PyStr.split 46 (parseTagRequest db write rid tag0).plcTag, lds_Fine part := by
+  rcases lds_parse_cases db write rid tag0 with ⟨e', hp, _⟩ |
+    ⟨tag, n, impl, info, bit, tag1, hs, h0, h1, hb, hparts, hbp, hsub, ⟨hd, hbb, hp⟩ | ⟨hd, t, idx, ha, hw, hp⟩⟩
+  · rw [hp] at he; cases he
+  · rw [hp]
+    intro part hpart
+    exact lds_fine_of_ok part (hparts part (hsub part hpart))
+  · rw [hp]
+    dsimp only
+    cases idx with
+    | none => intro part hpart; exact lds_fine_of_ok part (hparts part hpart)
+    | some i =>
+      dsimp only
+      obtain ⟨P, X, name, index, htag, ht, hn46, hn91, hnne, hv, hchars, hsplit, hX, hrepl⟩ :=
+        lds_getArrayIndex_shape tag t i hparts ha
+      have hi0 : 0 ≤ i := lds_getArrayIndex_nonneg tag t i hparts ha
+      have key : ∀ ds : List Nat, ds ≠ [] → (∀ c ∈ ds, PyStr.isDigitC c = true) →
+          ∀ part ∈ PyStr.split 46 (t ++ 91 :: ds ++ [93]), lds_Fine part := by
+        intro ds hne hds part hpart
+        have h46 : 46 ∉ name ++ 91 :: ds ++ [93] := by
+          intro hm
+          simp only [List.mem_append, List.mem_cons, List.not_mem_nil, or_false] at hm
+          rcases hm with (hm | hm | hm) | hm
+          · exact hn46 hm
+          · cases hm
+          · have := hds 46 hm; simp [PyStr.isDigitC] at this
+          · cases hm
+        have hrw : t ++ 91 :: ds ++ [93] = P ++ (name ++ 91 :: ds ++ [93]) := by rw [ht]; simp
+        rw [hrw, hrepl _ h46] at hpart
+        rcases List.mem_append.1 hpart with hx | hx
+        · exact lds_fine_of_ok part (hparts part (hX part hx))
+        · rw [List.mem_singleton.1 hx]
+          exact lds_fine_digits name ds hn91 hne hds
+      cases write with
+      | true =>
+        have hk : 0 ≤ i / 32 := Int.ediv_nonneg hi0 (by decide)
+        obtain ⟨hne, hds⟩ := lds_pyStrInt_digits (i / 32) hk
+        have : t ++ [91] ++ pyStrInt (i / 32) ++ [93] = t ++ 91 :: pyStrInt (i / 32) ++ [93] := by simp
+        simp only [if_true]
+        rw [this]
+        exact key _ hne hds
+      | false =>
+        have : t ++ nm "[0]" = t ++ 91 :: [48] ++ [93] := by
+          have : nm "[0]" = [91, 48, 93] := by decide
+          rw [this]; simp
+        simp only [Bool.false_eq_true, if_false]
+        rw [this]
+        exact key [48] (by simp) (by intro c hc; simp at hc; subst hc; decide)
 
 end Pycomm.Lgx.Drv
